@@ -51,6 +51,9 @@ def classify_output(text):
         return "harness", "harness-bug", text[text.find("VERIF-HARNESS-BUG"):][:400], ""
     c = CASE_RE.search(text)
     case = c.group(1) if c else ""
+    tm = re.search(r"SUMMARY: ThreadSanitizer: ([\w -]+?) (\S+) in (\S+)", text)
+    if tm:
+        return "sanitizer", "ThreadSanitizer:" + tm.group(1).strip().replace(" ", "-") + ":" + tm.group(3), tm.group(0), case
     m = SUMMARY_RE.search(text)
     hm = re.search(r"SUMMARY: \w+: [\w-]+ (%s/(?:harness|sched)/\S+)" % re.escape(VERIF), text)
     if hm and "AddressSanitizer" not in hm.group(0):
